@@ -41,7 +41,8 @@ func runSweepRace(c RaceCase) *failure {
 		st.Set(fmt.Sprintf("tunnox:runtime:filler:%d", i), "x", time.Hour)
 	}
 	lapsing := connstate.NewStore(st, "node-1", 2*time.Millisecond) // the registrations that lapse
-	nodes := []*connstate.Store{connstate.NewStore(st, "node-1", time.Minute), connstate.NewStore(st, "node-2", time.Minute)}
+	// the lifetime of the fresh registrations is not the subject here: long enough to survive any stall of the process
+	nodes := []*connstate.Store{connstate.NewStore(st, "node-1", time.Hour), connstate.NewStore(st, "node-2", time.Hour)}
 	for b := 0; b < c.Batches; b++ {
 		type cli struct {
 			id            int64
